@@ -178,6 +178,15 @@ func runC12(c *Ctx) {
 		cl.Note = []string{"activity/compressed", "schedules/local"}[i%2]
 		calls = append(calls, cl)
 	}
+	// chains: the reference does not survive into the next file (its first
+	// compressed records and local times have no reference yet)
+	for i := 0; i < c.pick(60, 800); i++ {
+		a, b := c12Stream(rng, rng.Intn(2)).Bytes(), c12Stream(rng, rng.Intn(2)).Bytes()
+		id++
+		cl := p.runCall(id, "chained", append(append([]byte{}, a...), b...), plain, CallOpts{}, true)
+		cl.Note = "two timestamp streams chained"
+		calls = append(calls, cl)
+	}
 	calls = append(calls, corpusCalls(p, c, &id, c.pick(60000, 1<<30), CallOpts{})...)
 	mm := c.validateCalls(p, sch, calls, 14)
 	c.reportFamily(p, mm, nil)
